@@ -39,6 +39,7 @@ def setup(ctx):
     ctx.require("monitor", "reads_during_handler", 200)
     ctx.require("monitor", "l2_request_then_close_notify", 20)
     ctx.require("monitor", "l2_compared", 40)
+    ctx.require("monitor", "l2_large_uploads", 30)
 
 
 REQS = [
@@ -352,7 +353,63 @@ def run_l2(ctx):
                     close_loop(loop)
 
 
+def run_l2_large(ctx):
+    """Uploads of tens to hundreds of KiB behind both TLS layers: the ciphertext arrives in reads of every size a socket
+    read can have (asyncio hands over at most 256 KiB at a time) - one read for the lot, 16 KiB reads, odd sizes, the
+    request line alone first.  What is stored and answered is the same."""
+    from nauyaca.server.protocol import GeminiServerProtocol
+
+    from vf import tlsbench
+
+    rng = ctx.rng("l2-large")
+    k = 0
+    sizes = [20000, 131072, 131073, 204800] + ([] if ctx.quick() else [16384, 65536, 262144, 600000])
+    for size in sizes:
+        body = bytes((i * 7 + size) & 255 for i in range(251)) * (size // 251 + 1)
+        data = f"titan://h/big;size={size};mime=application/octet-stream\r\n".encode() + body[:size]
+        for backend in ("pyopenssl", "stdlib"):
+            base = None
+            steps = [16384, 262144, 131072, 100000, rng.choice([4096, 9000, 33000, 70000]), "line-first"]
+            for step in steps:
+                k += 1
+                if base is not None and not ctx.mine(k):
+                    continue
+                log = []
+                loop = new_loop()
+                try:
+                    h = SpyHandler({"mode": "sync", "outcome": "value", "status": 20, "meta": "text/gemini", "body": "ok\n"}, log, loop)
+                    up = SpyUpload({"delay": 0, "outcome": "value", "status": 20, "meta": "text/gemini", "body": "stored\n"}, log, loop)
+                    bench = tlsbench.Sandwich(loop, lambda: GeminiServerProtocol(h, None, up), backend=backend, log=log)
+                    if not bench.handshake():
+                        ctx.inconclusive_because(f"L2 handshake failed: {bench.error}")
+                        continue
+                    if step == "line-first":
+                        cut = data.index(b"\r\n") + 2
+                        bench.cipher_cuts = lambda m: list(range(262144, m, 262144))
+                        bench.client_send(data[:cut])
+                        loop.advance(0.5)
+                        bench.client_send(data[cut:])
+                    else:
+                        bench.cipher_cuts = lambda m, step=step: list(range(step, m, step))
+                        bench.client_send(data)
+                    bench.finish()
+                    obs = {"stream": bytes(bench.client_plain), "handler_calls": len(h.calls), "n_upload": len(up.calls),
+                           "upload_calls": [{kk: c[kk] for kk in ("raw_url", "size", "mime", "token", "content", "path")} for c in up.calls], "reads_during": 0,
+                           "fatal": repr(bench.tcp.fatal) if bench.tcp.fatal else None}
+                    ctx.count("monitor", "l2_large_uploads")
+                    if base is None:
+                        base = obs
+                        if obs["n_upload"] != 1 or not obs["stream"].startswith(b"20 "):
+                            ctx.violation(f"large-upload-not-stored:backend={backend}", f"a {size}-byte upload delivered in 16 KiB reads was answered {obs['stream'][:40]!r} ({obs['n_upload']} upload calls)", {"size": size, "backend": backend, "stream": obs["stream"][:80]})
+                        continue
+                    compare(ctx, f"titan-large-{size}", data[:200], (), f"reads-of-{step}", base, obs, level="L2", extra={"backend": backend, "variant": f"ciphertext in reads of {step} bytes", "baseline": "ciphertext in reads of 16384 bytes", "upload_size": size})
+                    ctx.case(("L2-large", backend, size, step if isinstance(step, str) or step in (16384, 262144, 131072, 100000) else "odd"), True, sample={"backend": backend, "size": size, "reads_of": step, "answer": obs["stream"][:20]})
+                finally:
+                    close_loop(loop)
+
+
 def run(ctx):
     run_l1(ctx)
+    run_l2_large(ctx)
     run_real_upload(ctx)
     run_l2(ctx)
